@@ -146,7 +146,7 @@ def wrapper_instance(name, D, F, kw=None):
             else:
                 exp.append(('get_gev_vector', lambda a, k: same(a[0], tgt) and same(a[1], noi) and k == atf_kwargs))
                 atf = np.einsum('...dD,...D->...d', NOI, SENT['get_gev_vector'])
-            exp.append(('get_mvdr_vector', lambda a, k, atf=atf: same(a[0], atf) and same(a[1], noi)))
+            exp.append(('get_mvdr_vector', lambda a, k, atf=atf: len(a) == 2 and not k and same(a[0], atf) and same(a[1], noi)))
         elif parts[-1].startswith('ch') and parts[-1][2:].isdigit():
             pass
         else:
@@ -161,7 +161,8 @@ def wrapper_instance(name, D, F, kw=None):
             exp.append((prim, lambda a, k, t=cur_target[0]: same(a[0], t) and same(a[1], noi) and k == kwr))
         if ban:
             prev = exp[-1][0] if exp else None
-            exp.append(('blind_analytic_normalization', lambda a, k, prev=prev: (prev is None or same(a[0], SENT[prev])) and same(a[1], noi)))
+            # exactly (vector, noise PSD): an option handed to the callee would select behaviour its contract does not cover
+            exp.append(('blind_analytic_normalization', lambda a, k, prev=prev: len(a) == 2 and not k and (prev is None or same(a[0], SENT[prev])) and same(a[1], noi)))
         yield 'primitive-call-sequence', sp._f([e[0] for e in lg] == [e[0] for e in exp])
         if [e[0] for e in lg] != [e[0] for e in exp]:
             return
